@@ -185,7 +185,7 @@ Definition parse_float (s : string) : res string :=
   let w := lower (match t with String "+" b => b | String "-" b => b | _ => t end) in
   if str_in w ["inf"; "infinity"; "nan"] then Err OutOfFuel else
   if String.eqb t "" || negb (all_floatish t) then Err (Raise "ValueError") else
-  match (if no_underscore t then parse_int_core t else None) with
+  match parse_int_core t with
   | Some z => if Z.abs z <? FLOAT_INT_EXACT then Ok (float_of_int_repr z) else Err OutOfFuel
   | None => Err OutOfFuel
   end.
